@@ -350,7 +350,11 @@ func (ec *evalCtx) field(base Val, name string, e spec.Expr) Val {
 		if kindOf(ft) == KArray {
 			return Val{T: fc.readKey(ec.cur, "elems", fc.subRef(key, ref), smt.Seq), GoT: ft}
 		}
-		return fc.fromTerm(fc.readKey(ec.cur, key, ref, sortOfKind(kindOf(ft))), ft)
+		ft2 := fc.readKey(ec.cur, key, ref, sortOfKind(kindOf(ft)))
+		if kindOf(ft) == KInt && !ec.inTrigger {
+			fc.S.Assert(inRange(ft2, ft), "")
+		}
+		return fc.fromTerm(ft2, ft)
 	}
 	ec.fail("no field %s in %s", name, t)
 	return Val{}
@@ -458,7 +462,16 @@ func (ec *evalCtx) callSpec(x *spec.Call) Val {
 			ec.fail("ghost field %s takes one argument", x.Fun)
 		}
 		ref := ec.scalar(ec.eval(x.Args[0]), x)
-		return Val{T: fc.readKey(ec.cur, "ghost:"+g.Name, ref, vs)}
+		gt := fc.readKey(ec.cur, "ghost:"+g.Name, ref, vs)
+		if g.Type == "seq" && !ec.inTrigger && len(ec.bound) == 0 {
+			// ghost sequences hold bytes
+			k := gt.String()
+			if !fc.byteDone[k] {
+				fc.byteDone[k] = true
+				fc.byteFacts(gt)
+			}
+		}
+		return Val{T: gt}
 	}
 	switch x.Fun {
 	case "len":
@@ -544,6 +557,14 @@ func (ec *evalCtx) callSpec(x *spec.Call) Val {
 			ec.fail("cast: %v", err)
 		}
 		return fc.fromTerm(ec.scalar(v, x), tv.Type)
+	case "implements":
+		// implements(x, "Iface"): x is non-nil and its dynamic type implements the named interface
+		v := ec.scalar(ec.eval(x.Args[0]), x)
+		it := fc.P.goTypeByName(x.Args[1].(*spec.StrLit).Val)
+		if it == nil {
+			ec.fail("implements: unknown interface %s", x.Args[1])
+		}
+		return Val{T: smt.And(smt.Neq(v, smt.IntLit(0)), smt.App(fc.implementsFn(it), smt.Bool, fc.dtype(v)))}
 	case "freshmap":
 		// the global map was created empty by make() in its package-level initialiser (checked in the source)
 		id, ok := x.Args[0].(*spec.Ident)
@@ -842,6 +863,7 @@ func (ec *evalCtx) location(e spec.Expr) (key string, ref *smt.Term, vs smt.Sort
 			v := ec.eval(x.Args[0])
 			t := ec.scalar(v, e)
 			if t.Sort == smt.Slice {
+				ec.fc.lastElemsSlice = t
 				return "elems", smt.SlArr(t), smt.Seq
 			}
 			return "elems", t, smt.Seq
